@@ -290,25 +290,25 @@ where
     
     /// Get a value by key
     pub fn get(&self, key: &K) -> Option<V> {
-        let shard_idx = self.select_shard(key);
+        let shard_idx = self.shard_for(key);
         self.shards[shard_idx].get(key)
     }
     
     /// Insert or update a key-value pair
     pub fn put(&self, key: K, value: V) -> Result<Option<V>> {
-        let shard_idx = self.select_shard(&key);
+        let shard_idx = self.shard_for(&key);
         self.shards[shard_idx].put(key, value)
     }
     
     /// Remove a key-value pair
     pub fn remove(&self, key: &K) -> Option<V> {
-        let shard_idx = self.select_shard(key);
+        let shard_idx = self.shard_for(key);
         self.shards[shard_idx].remove(key)
     }
     
     /// Check if the cache contains a key
     pub fn contains_key(&self, key: &K) -> bool {
-        let shard_idx = self.select_shard(key);
+        let shard_idx = self.shard_for(key);
         self.shards[shard_idx].contains_key(key)
     }
     
@@ -355,7 +355,24 @@ where
         self.shards.get(shard_idx).map(|shard| shard.stats())
     }
     
-    /// Select shard for a given key
+    /// Shard an operation on `key` has to go to.
+    ///
+    /// Hash placement is a function of the key. RoundRobin and ThreadAffinity only decide
+    /// where a key that is not in the map yet gets stored: an existing key has to be found
+    /// in the shard that holds it, otherwise get/remove/contains_key miss entries that are
+    /// present and put() stores a second copy whose older value is served later.
+    fn shard_for(&self, key: &K) -> usize {
+        match self.config.load_balancing {
+            LoadBalancingStrategy::Hash => self.select_shard(key),
+            _ => self
+                .shards
+                .iter()
+                .position(|shard| shard.contains_key(key))
+                .unwrap_or_else(|| self.select_shard(key)),
+        }
+    }
+    
+    /// Select the shard a new key is placed in
     fn select_shard(&self, key: &K) -> usize {
         match self.config.load_balancing {
             LoadBalancingStrategy::Hash => {
